@@ -22,9 +22,10 @@ pub fn class_of(type_name: &str) -> String {
     else if t.contains("Buffer<") { "poolBuf".to_string() }
     else if t.contains("WakerState") { "ackWaker".to_string() }
     else if t.contains("CommandStatus") { "ackStatus".to_string() }
-    else if t.contains("HashMap") && t.contains("WeightedKey") { "kwShard".to_string() }
-    else if t.contains("HashMap") && t.contains("StoredValue") { "storeShard".to_string() }
-    else if t.contains("HashMap") && t.contains("SystemTime") { "ttlShard".to_string() }
+    // (whatever map type holds them: the class is named after what the lock protects)
+    else if t.contains("WeightedKey") { "kwShard".to_string() }
+    else if t.contains("StoredValue") { "storeShard".to_string() }
+    else if t.contains("SystemTime") { "ttlShard".to_string() }
     else { format!("other:{}", t.replace(' ', "")) }
 }
 
